@@ -12,7 +12,7 @@ import (
 )
 
 func init() {
-	register("C15", "lines with and without tags and 0..15 arguments delivered over a real connection to 2..4 foreground and 1..3 background handlers that are chained so that each one first records the line it received, then overwrites every argument, appends to the argument slice, rewrites and adds tags, and only then lets the next handler look; what every invocation saw must equal the parsed event (compared with the real ParseLine of the same bytes); later events must be unaffected; non-trivial = every line; distinct by line bytes", c15)
+	register("C15", "lines with no, one, several, valueless and present-but-empty tag sections and 0..15 arguments delivered over a real connection to 2..4 foreground and 1..3 background handlers that are chained so that each one first records the line it received, then overwrites every argument, appends to the argument slice, rewrites and adds tags, and only then lets the next handler look; what every invocation saw must equal the parsed event (compared with the real ParseLine of the same bytes); later events must be unaffected; non-trivial = every line; distinct by line bytes", c15)
 }
 
 func c15(c *Ctx) {
@@ -70,8 +70,15 @@ func c15(c *Ctx) {
 		var raws []string
 		for i := 0; i < c.Pick(40, 200); i++ {
 			var sb strings.Builder
-			if c.R.Bool() {
+			switch c.R.N(8) { // tag sections of every shape: absent, full, one tag, present but empty ("@ ", "@;", "@;;"), valueless
+			case 0, 1, 2:
 				sb.WriteString(fmt.Sprintf("@id=%d;k=v\\swith\\sspace;flag ", i))
+			case 3:
+				sb.WriteString(fmt.Sprintf("@only=%d ", i))
+			case 4:
+				sb.WriteString([]string{"@ ", "@; ", "@;; "}[c.R.N(3)])
+			case 5:
+				sb.WriteString("@flag ")
 			}
 			sb.WriteString(fmt.Sprintf(":n%d!u@h PRIVMSG", i))
 			na := c.R.N(15)
@@ -102,6 +109,9 @@ func c15(c *Ctx) {
 			tag := "args"
 			if strings.HasPrefix(r, "@") {
 				tag = "args+tags"
+				if pl := client.ParseLine(r); pl != nil && pl.Tags != nil && len(pl.Tags) == 0 {
+					tag = "args+empty-tag-section"
+				}
 			}
 			c.Dist("tag:" + tag)
 			k := tag + "|" + r
